@@ -26,4 +26,26 @@ mod verif_kani {
             Err(_) => { assert!(ty == 3 || size > 128 * 1024); }
         }
     }
+
+    fn guard_decode_literals(
+        section: &LiteralsSection,
+        _scratch: &mut crate::decoding::scratch::HuffmanScratch,
+        _source: &[u8],
+        _target: &mut alloc::vec::Vec<u8>,
+    ) -> Result<u32, crate::decoding::errors::DecompressLiteralsError> {
+        assert!(section.regenerated_size <= MAX_BLOCK_SIZE, "literals section regenerates more than a block");
+        Err(crate::decoding::errors::DecompressLiteralsError::MissingCompressedSize)
+    }
+    #[kani::proof]
+    #[kani::unwind(10)]
+    #[kani::stub(crate::decoding::literals_section_decoder::decode_literals, guard_decode_literals)]
+    #[kani::stub(crate::decoding::ringbuffer::RingBuffer::reserve_amortized, crate::decoding::ringbuffer::verif_kani::fixed_first_alloc)]
+    fn literals_regenerated_size_capped() {
+        let content: [u8; 8] = kani::any();
+        let mut ws = DecoderScratch::new(1024);
+        let mut d = new();
+        let hdr = BlockHeader { last_block: true, block_type: BlockType::Compressed, decompressed_size: 0, content_size: 8 };
+        let r = d.decompress_block(&hdr, &mut ws, &content[..]);
+        core::mem::forget(ws);
+    }
 }
